@@ -19,8 +19,6 @@ try:
     rc_clean, out_clean = run("go test -vet=off -count=1 ./test/seeded/", r)
     os.remove(f"{r}/test/seeded/demo_test.go")
     rc_ap, out_ap = run(f"git apply --whitespace=nowarn {os.path.abspath(src)}/patch.diff", r)
-    if rc_ap != 0:
-        rc_ap, out_ap = run(f"patch -p1 -s -F3 < {os.path.abspath(src)}/patch.diff", r)
     res = {"base": subprocess.run(f"git -C /repo rev-parse --short {base}", shell=True, capture_output=True, text=True).stdout.strip(),
            "patch_applies": rc_ap == 0, "demo_passes_without_patch": rc_clean == 0}
     if rc_ap == 0:
